@@ -90,7 +90,8 @@ CHECKS.update({
                  "Order-independence is a theorem too (Whv/Lemmas/Confluence.lean): for one message window under a fixed set, published iff some "
                  "accepted observation after a message event completes the quorum of distinct accepted signers (published_iff_quorum), at most "
                  "once, with the own body and a Valid signature list, and any two orders and multiplicities of the same events publish alike "
-                 "(c02_confluence, c02_confluence_same_events). Across set updates the per-step theorems apply; the harness replays permutation, "
+                 "(c02_confluence, c02_confluence_same_events); the frame theorem (run_frame, c02_other_traffic) extends this to any interleaving "
+                 "with traffic about other messages. Across set updates the per-step theorems apply; the harness replays permutation, "
                  "subset and rotation families against fresh processors and the driver evaluates a history-based Spec on the implementation's "
                  "own traces."),
         "note": ("Trusted: Lean kernel; crypto oracle abstract; harness + driver. The confluence theorems are for one aggregation window "
